@@ -210,8 +210,9 @@ pub struct KeyId(String);
 impl KeyId {
     /// Return the first 8 hex digits of the key id
     pub fn prefix(&self) -> String {
-        assert!(self.0.len() >= 8);
-        self.0[0..8].to_string()
+        // a key id read from untrusted metadata is any 64-byte string, not
+        // necessarily ASCII: do not slice at a byte offset
+        self.0.chars().take(8).collect()
     }
 }
 
